@@ -28,7 +28,27 @@ may not contain nodes unreachable from the head (the textbook assumes there are 
 import itertools
 
 from vlib.runner import Check, ShardResult, Failure
-from vlib.timeout import call_with_limit, TimeLimit
+import signal
+
+
+class TimeLimit(BaseException):
+    pass
+
+
+def _on_limit(signum, frame):
+    raise TimeLimit()
+
+
+def call_with_cpu_limit(seconds, fn):
+    """Protective limit on the CPU time of this process (ITIMER_PROF), so that a loaded machine
+    cannot trigger it; a non-terminating algorithm still does."""
+    old = signal.signal(signal.SIGPROF, _on_limit)
+    signal.setitimer(signal.ITIMER_PROF, seconds)
+    try:
+        return fn()
+    finally:
+        signal.setitimer(signal.ITIMER_PROF, 0)
+        signal.signal(signal.SIGPROF, old)
 
 # ---------------------------------------------------------------------------------- oracles
 
@@ -305,7 +325,7 @@ class Judge(object):
             self.fail("reachable_parents_stop_node", "(leaf=%r, head=%r) got %r, expected %r" % (L[leaf], L[head], r, sorted(exp)), leaf)
 
 
-LIMIT_S = 10     # per graph (normal cost: 1..50 ms); a hit is inconclusive, never a verdict
+LIMIT_S = 10     # CPU seconds per graph (normal cost: 1..50 ms); a hit is inconclusive, never a verdict
 
 
 def judge_all(n, edges, heads, labels=None, node_order=None, paths=True):
@@ -323,7 +343,7 @@ def judge_all(n, edges, heads, labels=None, node_order=None, paths=True):
                 j.stop_node(leaf, h)
     timed_out = False
     try:
-        call_with_limit(LIMIT_S, body)
+        call_with_cpu_limit(LIMIT_S, body)
     except TimeLimit:
         timed_out = True
     hp = out["hp"] + [False] * (len(list(heads)) - len(out["hp"]))
@@ -376,6 +396,7 @@ class C27(Check):
                     res.fail(b, d, c)
                 if tl:
                     complete = False
+                    res.notes.append("time limit: n=%d edges=%r" % (n, edges))
                     res.dropped["time-limit %ds on one graph (inconclusive)" % LIMIT_S] += 1
                     if sum(res.dropped.values()) >= 3:
                         res.dropped["shard abandoned after 3 time limits"] += 1
@@ -412,6 +433,7 @@ class C27(Check):
                 return
             fails, cyc, hp, tl = judge_all(n, edges, range(n), labels, order, paths=do_paths)
             if tl:
+                res.notes.append("time limit: n=%d edges=%r labels=%r order=%r" % (n, edges, labels, order))
                 res.dropped["time-limit %ds on one graph (inconclusive)" % LIMIT_S] += 1
             res.counters["random_graphs"] += 1
             res.counters["random_graphs_with_paths_checked" if do_paths else "random_graphs_paths_skipped"] += 1
